@@ -73,7 +73,47 @@ def corr(rep: C.Report, tier: str):
                       {"cases": [(n, k, float(a), float(b)) for n, k, a, b in bad[:4]]}, finding_key="C08:action")
 
 
+def _xsm_relabellings(rep: C.Report, tier: str):
+    """two-field GeV-like model at Tn = 300 (in its units) through WallGoManager, in equivalent labellings of field space"""
+    import manager_common as MC
+
+    def run(**relabel):
+        m, model = MC.new_xsm_manager(u=3.0, **relabel)
+        res = m.solveWall(MC.settings())
+        Tn = 300.0
+        W, off = np.asarray(res.wallWidths), np.asarray(res.wallOffsets)
+        ih, is_ = relabel.get("perm", (0, 1)).index(0), relabel.get("perm", (0, 1)).index(1)
+        # physical separation of the two walls: centre_i = -offset_i * L_i
+        sep = (-off[is_] * W[is_]) - (-off[ih] * W[ih])
+        return {"vw": res.wallVelocity, "success": res.success, "vJ": float(m.hydrodynamics.vJ), "widthH*Tn": float(W[ih] * Tn),
+                "widthS*Tn": float(W[is_] * Tn), "separation*Tn": float(sep * Tn)}
+    base = run()
+    labs = [("permute", dict(perm=(1, 0))), ("reflect-h+shift", dict(signs=(-1.0, 1.0), shift=(40.0, -25.0)))]
+    if tier == "thorough":
+        labs += [("permute+reflect-s", dict(perm=(1, 0), signs=(1.0, -1.0))), ("shift", dict(shift=(-120.0, 300.0)))]
+    for name, relabel in labs:
+        got = run(**relabel)
+        rep.case(key=("xsm-relabel", name))
+        rep.count("xsm relabelling runs")
+        bad = []
+        if abs(got["vJ"] - base["vJ"]) > 1e-6:
+            bad.append("vJ")
+        if got["success"] != base["success"] or got["vw"] is None or abs(got["vw"] - base["vw"]) > 2e-3:
+            bad.append("vw")
+        for q in ("widthH*Tn", "widthS*Tn"):
+            if abs(got[q] - base[q]) > 0.03 * base[q]:
+                bad.append(q)
+        if abs(got["separation*Tn"] - base["separation*Tn"]) > 0.1 * abs(base["separation*Tn"]) + 0.05:
+            bad.append("separation*Tn")
+        if bad:
+            rep.violation(f"two-field GeV-like model (Tn=300): relabelling field space ({name}) changes {bad}",
+                          {"transformation": name, "params": {k: list(v) for k, v in relabel.items()}, "base": base, "transformed": got,
+                           "how": "harness/manager_common.new_xsm_manager(u=3.0, **relabel)[0].solveWall(settings())"},
+                          finding_key=f"C08:xsm:{name}:{','.join(bad)}")
+
+
 def search(rep: C.Report, tier: str, broken):
+    _xsm_relabellings(rep, tier)
     r = C.rng("C08search")
     base = EC.make_eom("toy2c", {}, M=40)
     Tn = base["thermo"].Tnucl
